@@ -6,7 +6,7 @@ VERIF = os.path.dirname(os.path.dirname(os.path.abspath(__file__)))
 
 # property id -> (technique, level text, level note, design ref)
 CHECKS = {
-    "C01-pending": ("AddressSanitizer with red zones inside the Scheme heap (allocator hook) + UBSan subset; C-API item evaluator with a same-context probe",
+    "C01": ("AddressSanitizer with red zones inside the Scheme heap (allocator hook) + UBSan subset; C-API item evaluator with a same-context probe",
             "Runtime monitoring on the sanitized build: every name exported by the R7RS-small libraries and every VM primitive is "
             "applied to 0..7 arguments from a pool of 62 hostile values, plus boundary index tuples for ~60 indexed operations, "
             "reader inputs (valid, grammar-aware mutations, raw bytes; read/load/eval) and malformed core/derived forms. Each item "
@@ -19,6 +19,43 @@ CHECKS = {
             "is not judged. The ASan harness runs with a 512 MB C stack (ASan frames are larger), so C-stack exhaustion by deep "
             "nesting is judged on the unsanitized build only.",
             "DESIGN.md section 3 C01"),
+    "C03": ("differential execution against an independent definitional interpreter (Python, written from R7RS 4/5.3/7.3), both operand orders",
+            "Runtime monitoring by model comparison: every generated closed, terminating program is compiled and run by chibi inside "
+            "one top-level form and its log trace, final value or error class is compared with the interpreter's. Quick: all 864 "
+            "capture-pattern combinations to closure depth 3 (x3 bystander layouts), 1651 call-protocol/derived-form programs (0..8 "
+            "fixed+rest x argument counts x call routes, apply with 0..300 arguments, case/do/quasiquote/values edges, every use "
+            "position of a rest parameter), 8000 typed random programs; thorough: depth 4 and 200 000 random programs.",
+            "Trusted: the interpreter c03_ref.py for the generated subset, the sexpr reader. Programs whose outcome R7RS does not "
+            "prescribe (unspecified values used, order-sensitive, uninitialised letrec variables) are dropped and counted: each "
+            "program is interpreted under both operand orders and dropped unless the outcome is order-independent.",
+            "DESIGN.md section 3 C03"),
+    "C08": ("constructor-built data written by both writers; W decided by an independent Python reader / float(), R on a reader-independent dump, X both readers on the same texts",
+            "Runtime monitoring: flonums built from bits (all 2^16 half-precision patterns widened, 2^e +- 1 ulp, subnormals, "
+            "formatting switch points, random bits), bignums from limbs, strings/symbols/chars from code points, trees to depth 6 and "
+            "labelled graphs are written by the native and the (scheme write) writers; (W) the text denotes the datum, decided in "
+            "Python; (R) reading the writer's own text gives the datum back (bit patterns, canonical graph labelling); (X) the native "
+            "reader and (scheme read) agree on ~230 named spellings and malformed probes in 5 contexts; every scalar value swept inside chibi.",
+            "(X) claims agreement of the readers on the first datum of a text, not correctness on foreign texts. Random doubles, trees "
+            "and graphs are sampled. Known finding: the native reader is not correctly rounded (writer-faithful texts read back 1 ulp off).",
+            "DESIGN.md section 3 C08"),
+    "C09": ("cross-build differential: identical program files on default vs SEXP_USE_SIMPLIFY=0 and default vs SEXP_USE_CUSTOM_LONG_LONGS=1",
+            "Runtime monitoring by build-vs-build comparison: a violation is a textual difference in trace/value/error between two builds "
+            "of the same tree. ~10.9 k programs aimed at each simplify.c transformation (constant folds over an operand lattice incl. "
+            "overflowing / dividing by zero / ill-typed in 13 contexts, let-constant and constant-test templates, statement sequences, "
+            "C03's capture patterns and protocols with constants) on plain and nosimp; 20 000 C04 + 20 000 C17 arithmetic cases on "
+            "plain and cll. The C03 interpreter / Python integers only label which side is wrong.",
+            "Only R7RS-defined programs are compared; differences confined to unspecified values are ignored. Known C04/C17 model "
+            "failures common to both builds are not C09 matters.",
+            "DESIGN.md section 3 C09"),
+    "C12": ("model-based differential testing of string-operation histories against a code-point-array model, observation after every step; scalar-value sweep; ASan replay",
+            "Runtime monitoring: seeded histories (<= 40 steps, three strings mixing 1/2/3/4-byte characters, ~150 operation variants "
+            "incl. string-set! with every width change, copy! with overlap, ports across buffer boundaries, cursors, SRFI 130) are "
+            "executed one per top-level form; after every step contents (code points), length and UTF-8 bytes of all three strings "
+            "are compared with the model; every scalar value goes through char->string->utf8->string->char with a UTF-8 byte hash "
+            "checked against Python's codec; a slice of the histories is replayed on the ASan red-zone build.",
+            "'All histories' is sampled. Error behaviour (out-of-range indexes, mutation of literals) is left to C01. Only the first "
+            "divergent step of a history is judged.",
+            "DESIGN.md section 3 C12"),
     "C04": ("reference-model differential: Python int/Fraction oracle, operand-preservation and canonical-form observation",
             "Runtime monitoring by model-based differential testing: 59 exact operations over a boundary lattice (fixnum limits, "
             "2^k+-1 to k=400, all-ones/zero words), random operands to 4000 bits, crafted quotient-estimate / split / fixnum-border "
